@@ -277,6 +277,9 @@ def run(chk):
     _noabort_rule(chk, prog)
     _verifyenv_rule(chk, prog)
     _bitsetnull_rule(chk, prog)
+    full = Program.load("default")
+    _envuse_rule(chk, full)
+    _symmap_rule(chk, full)
 
 
 def _envvalid_rule(chk, prog):
@@ -1224,3 +1227,139 @@ def _reaches_panic_only_via_conditions(fn, bid, leads_to_panic, depth=0):
         return False
     return any(s >= 0 and (leads_to_panic(s) or _reaches_panic_only_via_conditions(fn, s, leads_to_panic, depth + 1))
                for s in blk.succs)
+
+
+def _envuse_rule(chk, prog):
+    """An unmarshalled on-stack closure environment carries a negated offset and, in `as`, a fiber pointer - it looks
+    like an off-stack environment (offset <= 0) until janet_env_valid has either promoted it (offset > 0) or emptied it.
+    Every consumer must therefore validate BEFORE it looks at the sign of the offset or follows `as`: janet_env_valid
+    changes the offset, so a test made before the call describes the environment as it no longer is."""
+    rule = "C10-ENVUSE"
+    chk.rule(rule, "every reader of a closure environment's offset / storage pointer validates the environment first (janet_env_valid before the on-stack test)")
+    VALIDATORS = ("janet_env_valid", "janet_env_maybe_detach")
+    n_sites = 0
+    for fn in prog.all_funcs():
+        if fn.name == "janet_env_valid":
+            continue
+
+        def env_read(x):
+            """-> base text if x reads E->offset or E->as of a JanetFuncEnv"""
+            if x.k == "mem" and x.rec == "JanetFuncEnv" and x.field in ("offset", "as"):
+                return x.kids[0].text().replace(" ", "")
+            return None
+        reads = [x for x in fn.nodes if env_read(x)]
+        if not reads:
+            continue
+        chk.analysed(fn)
+
+        def is_store_target(x):
+            # x (or the union member above it) is the left side of a plain assignment
+            p_ = x.parent
+            top = x
+            while p_ is not None and p_.k == "mem" and p_.kids and p_.kids[0] is top:
+                top = p_
+                p_ = p_.parent
+            return p_ is not None and p_.k == "asg" and p_.op == "=" and p_.kids[0] is top
+
+        def transfer(st, x):
+            if x.k == "call" and x.callee in VALIDATORS and x.args:
+                return st | frozenset([x.args[0].text().replace(" ", "")])
+            e = env_read(x)
+            if e and is_store_target(x):
+                return st | frozenset([e])           # the function itself defines the representation
+            tgt = None
+            if x.k == "asg" and x.kids[0].k == "ref":
+                tgt = x.kids[0].name
+            elif x.k == "vardecl":
+                tgt = x.name
+            if tgt:
+                import re
+                return frozenset(v for v in st if not re.search(r"\b%s\b" % re.escape(tgt), v))
+            return st
+
+        def edge(st, blk, succ, cond, truth):
+            c = flow.compare_of(cond, truth)
+            if c is None or c[2] is None:
+                return st
+            l, op, r = strip_casts(c[0]), c[1], strip_casts(c[2])
+            for a, b in ((l, r), (r, l)):
+                e = env_read(a)
+                if e and a.field == "offset" and b.v == 0 and op == "==":
+                    return st | frozenset([e])       # offset == 0: off-stack, never an unvalidated image offset
+            return st
+        IN, OUT = flow.forward(fn, frozenset(), transfer, lambda a, b: a & b, edge=edge)
+        for x, st in flow.states_at(fn, IN, transfer):
+            e = env_read(x)
+            if not e or is_store_target(x):
+                continue
+            # a bare (in)equality test of the offset against 0 is meaningful on an unvalidated environment too
+            p_ = x.parent
+            while p_ is not None and p_.k in ("cast", "paren"):
+                p_ = p_.parent
+            if x.field == "offset" and p_ is not None and p_.k == "bin" and p_.op in ("==", "!=") and any(k.v == 0 for k in p_.kids):
+                continue
+            n_sites += 1
+            chk.instance(rule)
+            if e in st:
+                chk.ok(rule, "%s: `%s` read after validation" % (fn.name, x.text()[:40]))
+            else:
+                chk.violation(rule, fn.tu.name, fn.name, "%s:%s" % (e, x.field), x.loc,
+                              "`%s` is read before janet_env_valid(%s) on some path: for an environment that came out of an image the offset is "
+                              "still the negated, unchecked one and `as` holds a fiber pointer, so the on-stack test takes the off-stack branch "
+                              "(or, validated afterwards, the branch no longer matches the representation)" % (x.text()[:40], e))
+    chk.floor(rule, 12, n_sites)
+
+
+SYMMAP_TRUSTED = {"janet_bytecode_remove_noops": "compile.c"}
+
+
+def _symmap_rule(chk, prog):
+    """JanetSymbolMap entries come straight from images and from asm input and are not covered by janet_verify; whoever
+    indexes with one of their fields must bound it first."""
+    rule = "C10-SYMMAP"
+    chk.rule(rule, "an index taken from a symbol-map entry (slot_index, death_pc) is compared against a bound before it is used as a subscript")
+    n_sites = 0
+    from jv.callgraph import CallGraph
+    cg = CallGraph(prog)
+    for fn in prog.all_funcs():
+        if fn.name in SYMMAP_TRUSTED:
+            # who-may-call: reached only from the compiler, on the symbol map the compiler has just built
+            callers = set(cg.funcs[a].tu.name for a, outs in cg.edges.items() if cg.fid(fn) in outs)
+            if callers and callers <= {SYMMAP_TRUSTED[fn.name]}:
+                chk.exception(rule, fn.name, "called only from %s on the definition the compiler itself has just produced "
+                              "(checked on every run)" % SYMMAP_TRUSTED[fn.name])
+                continue
+        subs = []
+        for x in fn.nodes:
+            if x.k == "sub" and len(x.kids) == 2:
+                fields = [y for y in x.kids[1].walk() if y.k == "mem" and y.rec == "JanetSymbolMap" and y.field in ("slot_index", "death_pc", "birth_pc")]
+                if fields:
+                    subs.append((x, fields))
+        if not subs:
+            continue
+        chk.analysed(fn)
+        IN, T = flow.condition_facts(fn)
+        for x, S in flow.states_at(fn, IN, T):
+            for (sx, fields) in subs:
+                if x is not sx:
+                    continue
+                for f in fields:
+                    n_sites += 1
+                    chk.instance(rule)
+                    ft = f.text().replace(" ", "")
+                    ok = bool(S)
+                    for ps in S:
+                        good = False
+                        for (op, l, r, toks, ln, rn) in ps:
+                            lt, rt = l.replace(" ", ""), (r or "").replace(" ", "")
+                            if (op in ("<", "<=") and lt == ft and rt) or (op in (">", ">=") and rt == ft):
+                                good = True
+                        if not good:
+                            ok = False
+                    if ok:
+                        chk.ok(rule, "%s: `%s` bounded before `%s`" % (fn.name, ft, sx.text()[:40]))
+                    else:
+                        chk.violation(rule, fn.tu.name, fn.name, "%s@%s" % (ft, sx.kids[0].text()[:24].replace(" ", "")), sx.loc,
+                                      "`%s` subscripts with `%s`, a symbol-map field that images and asm input supply unchecked, on a path with no "
+                                      "upper-bound comparison of it: out-of-bounds read" % (sx.text()[:60], ft))
+    chk.floor(rule, 4, n_sites)
